@@ -24,7 +24,7 @@ Your task: make ONE small, realistic change to the library's source in {WT} (the
 Then write a DEMONSTRATION that fails with your change and passes without it. Easiest form: a new unit-test file `src/seeded_demo.rs` (plus the single line `#[cfg(test)] mod seeded_demo;` appended to src/lib.rs) that drives the library the way a front-end does (RitiContext::new_with_config, get_suggestion_for_key, backspace_event, candidate_committed, finish_input_session, update_engine; configs can be built inside the crate with the pub(crate) setters or with crate::config::get_phonetic_method_defaults()/get_fixed_method_defaults(); key codes are in crate::keycodes) and asserts what the property says. If the property is about user files, point XDG_DATA_HOME at a fresh temporary directory under /tmp inside the test BEFORE creating the Config. Check both directions yourself: `git stash`-free procedure: run the demo test with your change (must FAIL), then temporarily revert only your src change (keep the demo), run it again (must PASS), then re-apply your change.
 
 
-IMPORTANT - {NPREV} earlier attempts by other people already seeded the following defects for this property; you must choose a clearly DIFFERENT mechanism and code site, and where the property has several clauses a clause (or a part of its stated domain) they did not touch. Assume the property is being checked by someone who types many random and dictionary-derived words under all option combinations, enumerates short key sequences exhaustively (up to 5 keys incl. backspace under all helper settings), keeps long-lived contexts alive for hundreds of words, commits every candidate index, toggles every single option by update-engine, edits/removes/restores the user files under a live context, types very long words and words with very long candidate lists, learns choices for the word parts of emoticons, presses keys the layout refuses, keeps the configuration object across update-engine calls, lets user files' time stamps go backwards, puts emoji / non-UTF-8 / empty values into the user's auto-correct list, presses the same key on both sides of an update-engine, changes one option at a time by update-engine between two words (also with user files present), presses every ordered pair of layout keys, keeps a healthy user file next to a damaged one, types every consonant of the layout in conjuncts, erases words typed with more keys than code points, keeps one context alive through thousands of distinct words, types every emoticon as raw keys in fixed layouts, types the same text on both sides of every option switch with every way of ending the word, enumerates all three-key sequences over the whole layout, learns every candidate index before typing suffixed or repeated texts, damages user files between two commits of one context, leaves the phonetic method for a fixed layout and comes back, keeps configuration objects and calls their setters in every order, types the same characters through number-pad key codes, rewrites layout files between two loads, puts values that mix scripts / control characters / digits-only keys into the user's list, types the longest dictionary words, throws words away by ctrl-backspace right before an option switch, runs coverage-guided fuzzing of byte-coded call histories against contexts created at every word boundary, and compares against independent reference models and freshly created contexts - so a defect that shows on a large fraction of inputs is worthless; aim for one that needs a conjunction of two or three specific conditions (a particular option pair AND a particular character class AND a particular position, a particular sequence of API calls incl. update-engine / restart / backspace / commit at a particular moment, a data-dependent corner of the bundled JSON tables, a value exactly at a limit).
+IMPORTANT - {NPREV} earlier attempts by other people already seeded the following defects for this property; you must choose a clearly DIFFERENT mechanism and code site, and where the property has several clauses a clause (or a part of its stated domain) they did not touch. Assume the property is being checked by someone who types many random and dictionary-derived words under all option combinations, enumerates short key sequences exhaustively (up to 5 keys incl. backspace under all helper settings), keeps long-lived contexts alive for hundreds of words, commits every candidate index, toggles every single option by update-engine, edits/removes/restores the user files under a live context, types very long words and words with very long candidate lists, learns choices for the word parts of emoticons, presses keys the layout refuses, keeps the configuration object across update-engine calls, lets user files' time stamps go backwards, puts emoji / non-UTF-8 / empty values into the user's auto-correct list, presses the same key on both sides of an update-engine, changes one option at a time by update-engine between two words (also with user files present), presses every ordered pair of layout keys, keeps a healthy user file next to a damaged one, types every consonant of the layout in conjuncts, erases words typed with more keys than code points, keeps one context alive through thousands of distinct words, types every emoticon as raw keys in fixed layouts, types the same text on both sides of every option switch with every way of ending the word, enumerates all three-key sequences over the whole layout, learns every candidate index before typing suffixed or repeated texts, damages user files between two commits of one context, leaves the phonetic method for a fixed layout and comes back, keeps configuration objects and calls their setters in every order, types the same characters through number-pad key codes, rewrites layout files between two loads, puts values that mix scripts / control characters / digits-only keys into the user's list, types the longest dictionary words, throws words away by ctrl-backspace right before an option switch, keeps two live contexts over one user directory, types every punctuation mark behind a learned choice, writes user files with byte order marks, erases and continues behind quotes in fixed layouts, runs coverage-guided fuzzing of byte-coded call histories against contexts created at every word boundary, and compares against independent reference models and freshly created contexts - so a defect that shows on a large fraction of inputs is worthless; aim for one that needs a conjunction of two or three specific conditions (a particular option pair AND a particular character class AND a particular position, a particular sequence of API calls incl. update-engine / restart / backspace / commit at a particular moment, a data-dependent corner of the bundled JSON tables, a value exactly at a limit).
 --- earlier attempts (do not repeat) ---
 {PREV}
 --- end ---
